@@ -141,7 +141,8 @@ def compute_inexact_flow_decomp_safe_paths(
                 R += 1
                 path_not_suffix_of_previous = True
 
-            if path_not_suffix_of_previous:
+            # A window is safe only with positive excess flow (a single edge whose lower bound is 0 is in no decomposition path)
+            if path_not_suffix_of_previous and inexact_excess > 0:
                 safe_paths_set.add(tuple(safe_path.copy())) if no_duplicates else safe_paths_list.append(safe_path.copy())
 
             # Remove the left most edge of the safe path
